@@ -238,10 +238,10 @@ class Repositories:
                         # product/flavor.  If the later, change "True" below
                         # to "False".
                         if True and \
-                           isinstance(vers, Tag) and vers.name == "latest" \
-                           and (not latest or
-                                self.eups.version_cmp(latest[1], out[1]) > 0):
-                            latest = (out[0], out[1], out[2], pkgroot)
+                           isinstance(vers, Tag) and vers.name == "latest":
+                            if not latest or \
+                               self.eups.version_cmp(latest[1], out[1]) < 0:
+                                latest = (out[0], out[1], out[2], pkgroot)
                         else:
                             return (out[0], out[1], out[2], pkgroot)
 
